@@ -40,13 +40,18 @@ type Knobs struct {
 	PWorld     int
 	PBounded   int
 	PAllotSrc  int
-	PVarRepr   int // chance that a value is written through a variable
-	PInfix     int // chance that a number / monetary is written as an infix expression
-	PBig       int // chance that a number comes from the big pool (through variables)
-	PNegCap    int // chance that a cap / overdraft bound is negative or zero
-	PNegBal    int // chance that a balance is negative
-	POrigin    int // chance that a variable gets a meta()/balance()/overdraft() origin
+	PVarRepr   int  // chance that a value is written through a variable
+	PInfix     int  // chance that a number / monetary is written as an infix expression
+	PBig       int  // chance that a number comes from the big pool (through variables)
+	PNegCap    int  // chance that a cap / overdraft bound is negative or zero
+	PNegBal    int  // chance that a balance is negative
+	POrigin    int  // chance that a variable gets a meta()/balance()/overdraft() origin
 	SameAsset  bool // every statement uses the first asset
+	// PWorldFallback: chance that the source of a fixed send is wrapped as { S @world } so
+	// that the statement cannot run out of funds
+	PWorldFallback int
+	// PRich: chance that a balance is comfortably large (40..120)
+	PRich int
 
 	// ShapeFaults allows unbounded / allotment sources directly under send-all
 	ShapeFaults bool
@@ -64,6 +69,7 @@ func DefaultKnobs() Knobs {
 		DestOnly: []string{"x", "y", "z:1"},
 		PSendAll: 25, PSave: 12, PCall: 8, PKept: 12, PUnbounded: 5, PWorld: 8, PBounded: 18,
 		PAllotSrc: 12, PVarRepr: 22, PInfix: 10, PBig: 6, PNegCap: 12, PNegBal: 12, POrigin: 15,
+		PWorldFallback: 30, PRich: 15,
 	}
 }
 
@@ -89,17 +95,14 @@ func (g *TG) n(label string, lo, hi int) int {
 	if hi <= lo {
 		return lo
 	}
-	return rapid.IntRange(lo, hi).Draw(g.T, label)
+	return lo + Uniform(g.T, label, hi-lo+1)
 }
 
 func (g *TG) pct(label string, p int) bool {
 	if p <= 0 {
 		return false
 	}
-	if p >= 100 {
-		return true
-	}
-	return rapid.IntRange(0, 99).Draw(g.T, label) < p
+	return Chance(g.T, label, p)
 }
 
 func pickS(g *TG, label string, xs []string) string {
@@ -169,6 +172,8 @@ func (g *TG) Sheet() {
 				v = big.NewInt(int64(-g.n("bal.neg", 1, 9)))
 			case c < 28+g.K.PNegBal+g.K.PBig:
 				v = new(big.Int).Set(bigPool[g.n("bal.big", 0, len(bigPool)-1)])
+			case c < 28+g.K.PNegBal+g.K.PBig+g.K.PRich:
+				v = big.NewInt(int64(g.n("bal.rich", 40, 120)))
 			default:
 				v = big.NewInt(int64(g.n("bal.small", 1, 15)))
 			}
@@ -498,7 +503,11 @@ func (g *TG) Stmt() *Stmt {
 	default:
 		n := g.Amount("send.amt")
 		g.note(n)
-		return &Stmt{Kind: StSend, Sent: g.MonExpr(asset, n, 0), Src: g.Src(asset, 0, false), Dst: g.Dst(asset, 0)}
+		src := g.Src(asset, 0, false)
+		if g.pct("send.fallback", g.K.PWorldFallback) {
+			src = &Src{Kind: SInorder, Subs: []*Src{src, {Kind: SAcct, Addr: Acct("world")}}}
+		}
+		return &Stmt{Kind: StSend, Sent: g.MonExpr(asset, n, 0), Src: src, Dst: g.Dst(asset, 0)}
 	}
 }
 
